@@ -153,8 +153,14 @@ class Pseudo2NetCDF:
                 pvar = pvar[...]
             nvar[...] = pvar
         elif isinstance(pvar[...], MaskedArray):
-            nvar[:] = pvar[...].filled(getattr(nvar, 'fill_value', getattr(
-                nvar, '_FillValue', getattr(pvar, 'missing_value', -9999))))
+            if isinstance(nvar, MaskedArray):
+                # an in-memory masked variable keeps the mask itself
+                nvar[:] = pvar[...]
+            else:
+                nvar[:] = pvar[...].filled(getattr(
+                    nvar, 'fill_value', getattr(
+                        nvar, '_FillValue',
+                        getattr(pvar, 'missing_value', -9999))))
         else:
             nvar[:] = pvar[...]
 
